@@ -4,6 +4,8 @@ import Pyunicorn.Model.NsiMeasures
 import Pyunicorn.Model.NsiBetw
 import Pyunicorn.Model.NetBetw
 import Pyunicorn.Model.NsiRw
+import Pyunicorn.Model.NsiEig
+import Pyunicorn.Model.NsiComp
 /-! Line-protocol driver for C02. -/
 open Pyunicorn Pyunicorn.Proto Pyunicorn.Nsi
 
@@ -89,6 +91,51 @@ def rwAll (G : Gr) (K : Nat) : String :=
     "|nbins=" ++ toString (histNBins G) ++
     "|lbb=" ++ showRats (histLowerBounds G)
 
+/-- round 5: `nsi_eigenvector_centrality`.  For the vector `x` the implementation returned (its
+floats as exact rationals): the n.s.i. adjacency matrix applied to it, the cross-multiplied
+eigen-residual, the code's normalisation applied to it again, and the flags "all entries positive"
+/ "the network is connected" (the hypotheses `PosVec` / `Connected` of
+`nsi_eigenvector_centrality_split`). -/
+def eigAll (G : Gr) (x : Nat → Rat) : String :=
+  let idx := List.range G.n
+  "ax=" ++ showRats (idx.map fun i => nsiAdjApply G x i) ++
+    "|resid=" ++ showRats (eigResid G x) ++
+    "|norm=" ++ showRats (idx.map fun i => ecNorm G.n x i) ++
+    "|pos=" ++ (if idx.all fun i => decide (0 < x i) then "1" else "0") ++
+    "|conn=" ++ (if isConnected G then "1" else "0")
+
+/-- round 5: the per-component wrapper of the two random-walk betweennesses
+(`Model/NsiComp.lean`) on any undirected network: the component lists, the six argument patterns
+through the component loop with copy-back, and the flag "the loop stores at every node the value
+of its own component's sub-network at its position there" (`perNode`). -/
+def compAll (G : Gr) : String :=
+  let idx := List.range G.n
+  let opt (o : Option (List Rat)) : String := match o with | some l => showRats l | none => "singular"
+  let sgl (ends : Bool) : Nat → Rat := fun a => if ends then G.w a * G.w a else 0
+  let fN (ends : Bool) : Gr → Option (List Rat) := fun H => newmanAll H ends
+  let fA (twin excl : Bool) : Gr → Option (List Rat) := fun H =>
+    let sg : Nat → Nat → Rat := if twin then fun a b => eval H [a, b] M.nsiTwinness else fun _ _ => 1
+    match arenasAll H sg excl with
+    | some (l, true) => some l
+    | _ => none
+  let agree (whole : Option (List Rat)) (single : Nat → Rat) (f : Gr → Option (List Rat)) : Bool :=
+    match whole with
+    | none => false
+    | some l => idx.all fun a => perNode G single f a == some (l.getD a 0)
+  let n0 := newmanWrapped G false
+  let n1 := newmanWrapped G true
+  let a1 := arenasWrapped G false true
+  let a2 := arenasWrapped G false false
+  let a3 := arenasWrapped G true true
+  let a4 := arenasWrapped G true false
+  let ok := agree n0 (sgl false) (fN false) && agree n1 (sgl true) (fN true) &&
+    agree a1 (fun _ => 0) (fA false true) && agree a2 (fun _ => 0) (fA false false) &&
+    agree a3 (fun _ => 0) (fA true true) && agree a4 (fun _ => 0) (fA true false)
+  "comps=" ++ join ((compList G).map showNats) ";" ++
+    "|newman=" ++ opt n0 ++ "|newman_ends=" ++ opt n1 ++
+    "|arenas=" ++ opt a1 ++ "|arenas_incl=" ++ opt a2 ++ "|arenas_twin=" ++ opt a3 ++
+    "|arenas_incl_twin=" ++ opt a4 ++ "|pernode=" ++ (if ok then "1" else "0")
+
 def answer (toks : List String) : String :=
   match toks with
   | ["eval", tw, n, adj, w, la0, la1, g0, g1, dist] =>
@@ -129,6 +176,22 @@ def answer (toks : List String) : String :=
   | ["rwsplit", k, v, p, n, adj, w, la0, la1, g0, g1, dist] =>
       (match rat? p with
        | some pp => rwAll (split (mkGr n adj w la0 la1 g0 g1 dist) v.toNat! pp) k.toNat!
+       | none => "bad-p")
+  | ["eig", x, n, adj, w, la0, la1, g0, g1, dist] =>
+      let X := rats x
+      eigAll (mkGr n adj w la0 la1 g0 g1 dist) (fun k => X.getD k 0)
+  | ["eigsplit", v, p, x, n, adj, w, la0, la1, g0, g1, dist] =>
+      (match rat? p with
+       | some pp =>
+          let X := rats x
+          let G := mkGr n adj w la0 la1 g0 g1 dist
+          eigAll (split G v.toNat! pp) (fun k => X.getD (collapse G.n v.toNat! k) 0)
+       | none => "bad-p")
+  | ["comp", n, adj, w, la0, la1, g0, g1, dist] =>
+      compAll (mkGr n adj w la0 la1 g0 g1 dist)
+  | ["compsplit", v, p, n, adj, w, la0, la1, g0, g1, dist] =>
+      (match rat? p with
+       | some pp => compAll (split (mkGr n adj w la0 la1 g0 g1 dist) v.toNat! pp)
        | none => "bad-p")
   | _ => "bad-request"
 
